@@ -3,7 +3,7 @@ use crate::{
     short_weierstrass::{Affine, Projective},
     AffineRepr, CurveGroup,
 };
-use ark_ff::Fp3;
+use ark_ff::{Fp3, Zero};
 use ark_serialize::{CanonicalDeserialize, CanonicalSerialize};
 use ark_std::vec::*;
 use educe::Educe;
@@ -20,8 +20,17 @@ pub struct G1Prepared<P: MNT6Config> {
     pub y_twist: Fp3<P::Fp3Config>,
 }
 
+impl<P: MNT6Config> G1Prepared<P> {
+    /// The identity is prepared as `(0, 0)`, which is not a point of the curve.
+    pub fn is_zero(&self) -> bool {
+        self.x.is_zero() && self.y.is_zero()
+    }
+}
+
 impl<P: MNT6Config> From<G1Affine<P>> for G1Prepared<P> {
     fn from(g1: G1Affine<P>) -> Self {
+        // make sure the identity is represented by (0, 0)
+        let g1 = if g1.infinity { G1Affine::<P>::identity() } else { g1 };
         let mut x_twist = P::TWIST;
         x_twist.mul_assign_by_fp(&g1.x);
 
